@@ -4,6 +4,12 @@ pub fn dispatch(v: &Value) -> Value {
     match v["cmd"].as_str().unwrap_or("") {
         "bdd_script" => bdd_script(v),
         "adf_sem" => adf_sem(v),
+        "iter" => iter_cmd(v),
+        "bdd_query" => bdd_query(v),
+        "counts_kernel" => {
+            let mc: ModelCounts = (us(&v["cmodels"]), us(&v["models"])).into();
+            json!({"more_models": mc.more_models(), "minimum": mc.minimum().to_string()})
+        }
         "adf_tables" => adf_tables(v),
         "features" => json!({
             "adhoccounting": cfg!(feature = "adhoccounting"),
@@ -167,4 +173,66 @@ pub fn adf_tables(v: &Value) -> Value {
     }
     let tabs: Vec<Value> = adf.ac.iter().map(|t| table(&adf.bdd, *t, n)).collect();
     json!({"n": n, "tabs": tabs})
+}
+
+pub fn iter_cmd(v: &Value) -> Value {
+    use adf_bdd::datatypes::adf::{ThreeValuedInterpretationsIterator, TwoValuedInterpretationsIterator};
+    let vec: Vec<Term> = v["vec"].as_array().unwrap().iter().map(|x| Term(us(x))).collect();
+    let mut it: Box<dyn Iterator<Item = Vec<Term>>> = if v["kind"].as_str() == Some("two") {
+        Box::new(TwoValuedInterpretationsIterator::new(&vec))
+    } else {
+        Box::new(ThreeValuedInterpretationsIterator::new(&vec))
+    };
+    let mut items = Vec::new();
+    while let Some(x) = it.next() {
+        items.push(Value::Array(x.iter().map(|t| json!(t.value().to_string())).collect()));
+        if items.len() > 100000 {
+            return json!({"error": "does not end"});
+        }
+    }
+    let after: Vec<bool> = (0..2).map(|_| it.next().is_some()).collect();
+    json!({"items": items, "after": after})
+}
+
+fn mcj(m: ModelCounts) -> Value {
+    json!([m.cmodels, m.models])
+}
+
+pub fn bdd_query(v: &Value) -> Value {
+    let n = us(&v["n"]);
+    let tabs = tabs_of(&v["tabs"]);
+    let fi = us(&v["focus"]);
+    let adf = adf_from_tabs(n, &tabs);
+    let f = adf.ac[fi];
+    let bdd = &adf.bdd;
+    let mut cubes = Vec::new();
+    if !f.is_truth_value() {
+        for goal in [false, true] {
+            for gv in 0..=n {
+                let res = bdd.interpretations(f, goal, Var(gv), &[], &[]);
+                let cs: Vec<Value> = res
+                    .iter()
+                    .map(|(neg, pos)| json!([neg.iter().map(|x| x.value()).collect::<Vec<_>>(), pos.iter().map(|x| x.value()).collect::<Vec<_>>()]))
+                    .collect();
+                cubes.push(json!({"goal": goal, "goal_var": gv, "cubes": cs}));
+            }
+        }
+    }
+    let mut deps: Vec<usize> = bdd.var_dependencies(f).iter().map(|x| x.value()).collect();
+    deps.sort();
+    let fc_t = adf.formulacounts(true);
+    let fc_f = adf.formulacounts(false);
+    json!({
+        "handle": f.value(),
+        "paths": {"true": mcj(bdd.paths(f, true)), "false": mcj(bdd.paths(f, false))},
+        "models": {"true": mcj(bdd.models(f, true)), "false": mcj(bdd.models(f, false))},
+        "formulacounts": {"true": mcj(fc_t[fi]), "false": mcj(fc_f[fi])},
+        "max_depth": bdd.max_depth(f),
+        "deps": deps,
+        "passive": (0..n).map(|x| bdd.passive_var_impact(Var(x), &adf.ac)).collect::<Vec<_>>(),
+        "active": (0..n).map(|x| bdd.active_var_impact(Var(x), &adf.ac)).collect::<Vec<_>>(),
+        "facet_models": mcj(adf.facet_count(&adf.ac)[fi].0),
+        "cubes": cubes,
+        "nodes": dump_nodes(bdd),
+    })
 }
